@@ -40,7 +40,8 @@ StepsOK(ev, syn) ==
   "tk" \in DOMAIN ev =>
      /\ ev.tk.lex + ev.tk.parse + ev.tk.eval + ev.tk.loops = ev.ticks
      /\ ev.tk.lex <= 2 * ev.len + 2
-     /\ LexOk(syn.toks) => ev.tk.parse = ParseSt(KindsOf(syn.toks)).st
+     \* (a literal the evaluator cannot convert stops its tokenizer there: the parser never sees the later tokens)
+     /\ (LexOk(syn.toks) /\ LitClasses(ev.e, syn.toks) \subseteq {"ok"}) => ev.tk.parse = ParseSt(KindsOf(syn.toks)).st
      /\ (ev.st = "ok" /\ syn.v = "accept") => ev.tk.eval = EvalNodes(syn.tree)
      /\ syn.v = "reject" /\ syn.rule # "literal out of range" => ev.tk.eval = 0
 
